@@ -141,9 +141,16 @@ func writeResult() {
 }
 
 func watchdog(t0 time.Time) {
-	for {
+	for tick := 0; ; tick++ {
 		time.Sleep(100 * time.Millisecond)
 		now := time.Now()
+		if tick%10 == 9 {
+			// partial result: a panic of the code under test kills the process without warning
+			resMu.Lock()
+			res.ElapsedMs = time.Since(t0).Milliseconds()
+			resMu.Unlock()
+			writeResult()
+		}
 		for i := range slots {
 			in := slots[i].Load()
 			if in != nil && now.Sub(in.start) > limit {
